@@ -7,7 +7,8 @@ def fixedStart (start step span : Nat) : Nat → Nat
   | 0 => Gen.fixed_first start
   | i + 1 => fixedStart start step span i + Gen.fixed_advance step span
 
-def rng : List Nat := [0, 1, 2, 3, 4]
+-- small arguments first; then arguments around 2^24 and 2^25 (where `f32` stops being exact for integers) and `u32::MAX`
+def rng : List Nat := [0, 1, 2, 3, 4, 16777216, 16777217, 16777219, 33554434, 4294967295]
 
 def chk2 (name : String) (f : Nat → Nat → String) (g : Nat → Nat → String) (args : String) : IO Bool := do
   for a in rng do for b in rng do
@@ -45,6 +46,7 @@ def main : IO Unit := do
     chk2 "zoom sweep: whole-segment test" (fun a b => s (Gen.bzs_whole a b)) (fun a b => s (decide (a ≤ b))) "segment end, next start",
     chk2 "summary sweep: length of a partly flushed piece" (fun a b => n (Gen.bs_part_len a b)) (fun a b => n (a - b)) "next start, segment start",
     chk2 "summary sweep: zero-length piece test" (fun a _ => s (Gen.bs_skip a)) (fun a _ => s (decide (a = 0))) "length, -",
+    chk2 "pybigtools array routines: an integer after its conversion to float" (fun x _ => toString (Gen.pyb_conv_to_array x ++ Gen.pyb_conv_to_array_bins x ++ Gen.pyb_conv_to_entry_array x ++ Gen.pyb_conv_to_entry_array_bins x).eraseDups) (fun x _ => toString [x]) "integer, -",
     chk2 "bigWig value length" (fun e st => n (Gen.wig_len e st)) (fun e st => n (e - st)) "end, start",
     chk2 "section cut (bigWig), not the last item" (fun k i => s (Gen.wig_cut false k i)) (fun k i => s (decide (k ≥ min i 65535))) "items, items_per_slot",
     chk2 "section cut (bigBed), not the last item" (fun k i => s (Gen.bed_cut false k i)) (fun k i => s (decide (k ≥ min i 65535))) "items, items_per_slot",
